@@ -199,7 +199,9 @@ def check_zone(item, zone, batch, rec, case):
         bounds = [steps[0]['lo']] + [s['hi'] for s in steps]
         if list(np.asarray(dset.bins[axis])) != bounds:
             rec.violation('step-bins-differ', f'{where}: {axis} bins '
-                          f'{list(dset.bins[axis])}, printed {bounds}', case)
+                          f'{list(dset.bins[axis])}, printed {bounds} '
+                          f'(steps printed decreasing: '
+                          f'{zone.get("steps_decreasing")})', case)
             return
     for snum, step in enumerate(steps):
         for gnum in range(ngr):
